@@ -23,6 +23,10 @@ CONSTANTS
   FlushEntry = TRUE
   UnmapOnDrop = TRUE
   Linear = TRUE
+  UserCalls = FALSE
+  MaxUserCalls = 0
+  InstallKinds = {"jump", "bool"}
+  Faults = {"mmap", "mprotect"}
   MaxLives = 1
   Gates = {"ok", "sig"}
   MaxInstalls = 2
